@@ -114,6 +114,27 @@ func run(cfg lib.Cfg) error {
 		judge(sc, "corpus-deep-reorg")
 	}
 
+	// a declaration whose table.columns ALREADY lists key / stamp columns (block_num, tx_idx,
+	// log_idx, src_name, ig_name) without block entries for them (IGSpec.PreCols, through the
+	// real ValidateFix): the unwind deletes by src_name / ig_name / block_num, so every row
+	// must carry them; a reorg replaces indexed blocks that produced rows.
+	for v, c := range []struct {
+		shape string
+		pre   []string
+	}{
+		{"log", []string{"block_num"}},
+		{"tx", []string{"block_num", "tx_idx"}},
+		{"log", []string{"src_name"}},
+		{"log", []string{"ig_name", "src_name", "block_num", "tx_idx", "log_idx"}},
+	} {
+		sc := world(fmt.Sprintf("corpus-key-columns-predeclared-%d", v), []string{c.shape}, 2, 1+v%2, 6, uint64(111+v))
+		sc.Gen.EmptyProb = 0
+		sc.IGs[0].PreCols = c.pre
+		sc.Acts = append(rounds(1, 3), ts.Act{Do: "reorg", Fork: 4, Len: 5})
+		sc.Acts = append(sc.Acts, rounds(1, 7)...)
+		judge(sc, "corpus-key-columns-predeclared")
+	}
+
 	// fresh start WITHOUT a configured start: the first recorded position (one block, or a
 	// first batch of several blocks when the head moves between the two head queries of the
 	// first step) is the ONLY one when the reorg orphans it: the unwind finds no remaining
@@ -346,6 +367,10 @@ func run(cfg lib.Cfg) error {
 			head = batch * r.Range(12, 20)
 		}
 		sc := world(fmt.Sprintf("reorg-%d", i), shapes, batch, conc, head, r.U64()%1_000_000)
+		if i%6 == 3 {
+			// the user's table.columns already lists some of the key / stamp columns
+			sc.IGs[0].PreCols = [][]string{{"block_num"}, {"src_name", "block_num"}, {"ig_name"}, {"block_num", "tx_idx"}}[(i/6)%4]
+		}
 		h := head
 		pos := 0 // rough upper bound of the highest position
 		nre := 1 + r.Intn(3)
